@@ -547,6 +547,19 @@ def _sorted_source(ctx, f: Func, value: ast.AST, fl: IndexFields, stmt: ast.stmt
         # projection of a locally sorted buffer
         if isinstance(src, ast.Name):
             buf = src.id
+            bvals = assignments_to(f, buf)
+            # the buffer is itself an order-preserving filter of zip(<sorted container>, ...): its
+            # component at the sorted container's slot is sorted
+            if len(bvals) == 1 and isinstance(bvals[0], ast.ListComp) and len(bvals[0].generators) == 1 \
+                    and isinstance(bvals[0].generators[0].iter, ast.Call) and norm(bvals[0].generators[0].iter.func) == "zip":
+                zc = bvals[0].generators[0].iter
+                slots = [k for k, a_ in enumerate(zc.args) if is_self_attr(a_) and a_.attr in fl.sorted]
+                bt, be = bvals[0].generators[0].target, bvals[0].elt
+                if slots and isinstance(bt, ast.Tuple) and isinstance(be, ast.Tuple) \
+                        and [norm(x) for x in bt.elts] == [norm(x) for x in be.elts] \
+                        and isinstance(tgt, ast.Tuple) and len(tgt.elts) == len(bt.elts) \
+                        and isinstance(tgt.elts[slots[0]], ast.Name) and norm(elt) == tgt.elts[slots[0]].id:
+                    return True, "projection of an order-preserving filter of the sorted container"
             key_ok, why = _buffer_sorted_by(ctx, f, buf, elt, tgt, stmt)
             return key_ok, why
         if isinstance(src, ast.Call) and isinstance(src.func, ast.Name) and src.func.id == "sorted" and src.args:
@@ -1019,6 +1032,8 @@ def removal_drops_empty_containers(ctx):
                 continue
             n_store += 1
             left = taint(n.value, True)
+            if is_self_attr(t):
+                left.discard("E")  # the whole map may well end up empty; its *entries* may not
             if left:
                 what = "an empty position list" if "E" in left and not isinstance(n.value, (ast.DictComp, ast.Dict)) \
                     else "an emptied entry"
